@@ -110,6 +110,15 @@ def run(r):
     try:
         # every small corpus file, and the Dropbox-encrypted one whatever its size (its loader swaps a decoder into xdis.marsh)
         files = [f for f in IG.corpus_files() if os.path.getsize(f) < 6000 or "dropbox" in f]
+        # and Dropbox files that FAIL part-way (cut in the middle / one byte of the encrypted body flipped): what the loader borrowed has to be put back then too
+        for i, f in enumerate([f for f in files if "dropbox" in f][:1]):
+            data = open(f, "rb").read()
+            os.makedirs(os.path.join(r.wd, "dropbox-bad"), exist_ok=True)
+            for tag, bad in (("cut", data[: len(data) // 2]), ("flip", data[:200] + bytes([data[200] ^ 0x5A]) + data[201:])):
+                p = os.path.join(r.wd, "dropbox-bad", f"{tag}-{i}.pyc")
+                with open(p, "wb") as fh:
+                    fh.write(bad)
+                files.append(p)
         mbytes = [list(b) for b in (b"i\x05\x00\x00\x00", b"(\x02\x00\x00\x00i\x01\x00\x00\x00N", b"s\x03\x00\x00\x00abc", b"[\x01\x00\x00\x00T", b"{i\x01\x00\x00\x00N0", b"g\x00\x00\x00\x00\x00\x00\xf8?",
                                        # Python 2 style streams: interned strings ('t') and references to them ('R')
                                        b"(\x03\x00\x00\x00t\x01\x00\x00\x00xt\x01\x00\x00\x00yR\x00\x00\x00\x00", b"(\x02\x00\x00\x00t\x05\x00\x00\x00alphaR\x00\x00\x00\x00",
